@@ -122,19 +122,19 @@ func (r *recorder) takeOrphans() []int64 {
 
 // outcome is what the monitor saw of one operation.
 type outcome struct {
-	Events        []cbEvent
-	Secondary     int
-	DeliverySeq   int64
-	OpGid         int64
-	Out           []byte
-	Err           error
-	Panic         string
+	Events            []cbEvent
+	Secondary         int
+	DeliverySeq       int64
+	OpGid             int64
+	Out               []byte
+	Err               error
+	Panic             string
 	LooksWhileBlocked int // number of non-blocking looks at the delivery point made while a callback was blocked
 	// positive evidence of "delivered before the callbacks completed"
-	DeliveredAtLook      bool // the delivery event was already there when the blocked callback was looked at
-	DeliveredWhileHeld   bool // callback ran on another goroutine and the operation returned while it was still held
-	AsyncHeld            int  // callbacks on another goroutine that the operation did wait for (watchdog expired): not a violation
-	Stuck                bool // the operation did not return within opWatchdog (resource ground: inconclusive, the run is aborted)
+	DeliveredAtLook    bool // the delivery event was already there when the blocked callback was looked at
+	DeliveredWhileHeld bool // callback ran on another goroutine and the operation returned while it was still held
+	AsyncHeld          int  // callbacks on another goroutine that the operation did wait for (watchdog expired): not a violation
+	Stuck              bool // the operation did not return within opWatchdog (resource ground: inconclusive, the run is aborted)
 }
 
 // opWatchdog is the generous outer watchdog of one operation (inputs are < 1 KiB, an operation takes < 1 ms).
